@@ -117,7 +117,32 @@ func (s *c01State) enter() {
 }
 func (s *c01State) leave() { atomic.AddInt32(&s.inflight, -1) }
 
-type metaPeeker interface{ PeekMeta(key string) []byte }
+type metaPeeker interface {
+	PeekMeta(key string) []byte
+	VisitMeta(f func(key, value []byte))
+}
+
+// checkMeta verifies that the receiver sees exactly the metadata its sender
+// supplied: tok, the extra pairs x0..xk with the announced value lengths
+// (empty values included), xl and fill - nothing else, nothing stale.
+func checkMeta(kind string, ctx metaPeeker, s *c01State) {
+	var got []string
+	ctx.VisitMeta(func(k, v []byte) { got = append(got, string(k)+"="+string(v)) })
+	tok := string(ctx.PeekMeta("tok"))
+	xl := strings.TrimPrefix(string(ctx.PeekMeta("xl")), "n")
+	fill := string(ctx.PeekMeta("fill"))
+	want := []string{"tok=" + tok}
+	if xl != "" {
+		for e, f := range strings.Split(xl, ",") {
+			n, _ := strconv.Atoi(f)
+			want = append(want, fmt.Sprintf("x%d=%s", e, strings.Repeat(fill, n)))
+		}
+	}
+	want = append(want, "xl=n"+xl, "fill="+fill)
+	if strings.Join(got, "&") != strings.Join(want, "&") {
+		s.fail("%s receiver of %s sees metadata %q, its sender supplied %q", kind, tok, got, want)
+	}
+}
 
 // handleCommon is what every CALL handler does with its (string view of the) argument.
 func handleCommon(kind string, ctx metaPeeker, get func() string) (string, *erpc.Status) {
@@ -126,6 +151,7 @@ func handleCommon(kind string, ctx metaPeeker, get func() string) (string, *erpc
 	defer s.leave()
 	arg := get()
 	metaTok := string(ctx.PeekMeta("tok"))
+	checkMeta("handler("+kind+")", ctx, s)
 	tok, err := checkBody(arg)
 	if err != nil {
 		s.fail("handler(%s): %v", kind, err)
@@ -145,41 +171,49 @@ func handleCommon(kind string, ctx metaPeeker, get func() string) (string, *erpc
 func C01Json(ctx erpc.CallCtx, a *JArg) (*JArg, *erpc.Status) {
 	r, st := handleCommon("json", ctx, func() string { return a.S })
 	ctx.SetMeta("tok", string(ctx.PeekMeta("tok")))
+	ctx.SetMeta("e", "")
 	return &JArg{S: r}, st
 }
 func C01Xml(ctx erpc.CallCtx, a *XArg) (*XArg, *erpc.Status) {
 	r, st := handleCommon("xml", ctx, func() string { return a.S })
 	ctx.SetMeta("tok", string(ctx.PeekMeta("tok")))
+	ctx.SetMeta("e", "")
 	return &XArg{S: r}, st
 }
 func C01Form(ctx erpc.CallCtx, a *FArg) (*FArg, *erpc.Status) {
 	r, st := handleCommon("form", ctx, func() string { return a.S })
 	ctx.SetMeta("tok", string(ctx.PeekMeta("tok")))
+	ctx.SetMeta("e", "")
 	return &FArg{S: r, N: []int32{9}}, st
 }
 func C01Pstr(ctx erpc.CallCtx, a *string) (string, *erpc.Status) {
 	r, st := handleCommon("pstr", ctx, func() string { return *a })
 	ctx.SetMeta("tok", string(ctx.PeekMeta("tok")))
+	ctx.SetMeta("e", "")
 	return r, st
 }
 func C01Pbytes(ctx erpc.CallCtx, a *[]byte) ([]byte, *erpc.Status) {
 	r, st := handleCommon("pbytes", ctx, func() string { return string(*a) })
 	ctx.SetMeta("tok", string(ctx.PeekMeta("tok")))
+	ctx.SetMeta("e", "")
 	return []byte(r), st
 }
 func C01Pnstr(ctx erpc.CallCtx, a *NStr) (NStr, *erpc.Status) {
 	r, st := handleCommon("pnstr", ctx, func() string { return string(*a) })
 	ctx.SetMeta("tok", string(ctx.PeekMeta("tok")))
+	ctx.SetMeta("e", "")
 	return NStr(r), st
 }
 func C01Pnbytes(ctx erpc.CallCtx, a *NBytes) (NBytes, *erpc.Status) {
 	r, st := handleCommon("pnbytes", ctx, func() string { return string(*a) })
 	ctx.SetMeta("tok", string(ctx.PeekMeta("tok")))
+	ctx.SetMeta("e", "")
 	return NBytes(r), st
 }
 func C01Pb(ctx erpc.CallCtx, a *secure.Encrypt) (*secure.Encrypt, *erpc.Status) {
 	r, st := handleCommon("pb", ctx, func() string { return a.Ciphertext })
 	ctx.SetMeta("tok", string(ctx.PeekMeta("tok")))
+	ctx.SetMeta("e", "")
 	return &secure.Encrypt{Ciphertext: r}, st
 }
 
@@ -189,6 +223,7 @@ func pushCommon(kind string, ctx metaPeeker, get func() string) *erpc.Status {
 	defer s.leave()
 	arg := get()
 	metaTok := string(ctx.PeekMeta("tok"))
+	checkMeta("push("+kind+")", ctx, s)
 	tok, err := checkBody(arg)
 	if err != nil {
 		s.fail("push receiver(%s): %v", kind, err)
@@ -261,7 +296,8 @@ type c01Op struct {
 	Len     int
 	Fill    byte
 	Pipe    []byte
-	Extra   int // number of extra metadata pairs
+	Extra   int   // number of extra metadata pairs
+	XLens   []int // value length of each extra pair (0 = empty value)
 }
 
 type c01Case struct {
@@ -289,6 +325,9 @@ func genC01(t *rapid.T, protos []vt.NamedProto, carrierSet []string) c01Case {
 				Len:     rapid.SampledFrom(lenClass).Draw(t, "len"),
 				Fill:    rapid.SampledFrom([]byte("abcxyz019")).Draw(t, "fill"),
 				Extra:   rapid.IntRange(0, 3).Draw(t, "extra"),
+			}
+			for e := 0; e < ops[i].Extra; e++ {
+				ops[i].XLens = append(ops[i].XLens, rapid.SampledFrom([]int{0, 0, 1, 7, 40}).Draw(t, "xlen"))
 			}
 			if rapid.IntRange(0, 3).Draw(t, "haspipe") == 0 {
 				ops[i].Pipe = rapid.SliceOfN(rapid.SampledFrom(vt.RegisteredXfer), 1, 2).Draw(t, "pipe")
@@ -366,15 +405,24 @@ func runC01(c c01Case, protos []vt.NamedProto) (errs []string, maxInfl int32, nm
 				if mt := string(cmd.InputMeta().Peek("tok")); mt != p.tok {
 					state.fail("call %s (%s): reply metadata token %q", p.tok, p.car.name, mt)
 				}
+				var rm []string
+				cmd.InputMeta().VisitAll(func(k, v []byte) { rm = append(rm, string(k)+"="+string(v)) })
+				if want := "tok=" + p.tok + "&e="; strings.Join(rm, "&") != want {
+					state.fail("call %s (%s): reply metadata %q, the handler set %q", p.tok, p.car.name, rm, want)
+				}
 			}
 			for oi, op := range ops {
 				tok := fmt.Sprintf("s%dw%do%d", c.WorkerSes[wi], wi, oi)
 				body := mkBody(tok, strings.Repeat(string(op.Fill), op.Len))
 				car := carriers[op.Carrier]
 				settings := []erpc.MessageSetting{erpc.WithBodyCodec(car.codec), erpc.WithAddMeta("tok", tok)}
-				for e := 0; e < op.Extra; e++ {
-					settings = append(settings, erpc.WithAddMeta(fmt.Sprintf("x%d", e), strings.Repeat("m", e*30)))
+				// extra pairs, some with an empty value; "xl" tells the receiver what to expect
+				xl := make([]string, len(op.XLens))
+				for e, n := range op.XLens {
+					xl[e] = strconv.Itoa(n)
+					settings = append(settings, erpc.WithAddMeta(fmt.Sprintf("x%d", e), strings.Repeat(string(op.Fill), n)))
 				}
+				settings = append(settings, erpc.WithAddMeta("xl", "n"+strings.Join(xl, ",")), erpc.WithAddMeta("fill", string(op.Fill)))
 				if len(op.Pipe) > 0 {
 					settings = append(settings, erpc.WithXferPipe(op.Pipe...))
 				}
